@@ -15,6 +15,7 @@ def run_workers(ctx: common.Ctx, worker, n_jobs: int, stream_observable=False, p
     stats = {}
     cases = {}
     nviol = 0
+    nkey = {}
     errors = []
     t0 = time.time()
     mpctx = mp.get_context('fork')
@@ -26,7 +27,15 @@ def run_workers(ctx: common.Ctx, worker, n_jobs: int, stream_observable=False, p
                 errors.append(res['error'])
             for c in res['cases']:
                 cases.setdefault(c[0], []).append(c[1:])
-            for what, replay in res['violations']:
+            for v in res['violations']:
+                what, replay = v[0], v[1]
+                key = v[2] if len(v) > 2 else None
+                if key is not None:
+                    # matches the signature of an entry of known_findings.json (decided there)
+                    nkey[key] = nkey.get(key, 0) + 1
+                    if nkey[key] <= 2:
+                        ctx.add_violation(what, replay, finding_key=key)
+                    continue
                 nviol += 1
                 if nviol <= 5:
                     ctx.add_violation(what, replay)
